@@ -199,7 +199,7 @@ class Gen:
         kind = kind or r.choice(KINDS)
         size = 0
         if kind == "maglev":
-            size = r.choice(SIZES) if r.random() < 0.93 else 0
+            size = r.choice(SIZES)
         self.kind[c] = kind
         m = r.choice([0, 0, 1, 2, 3])      # 2: peak-EWMA connection time (pick checked for membership only), 3: default
         self.timed[c] = m == 2 and kind in ("least", "p2c")
@@ -295,12 +295,37 @@ def history_case(rng, cid, focus=None):
     return Case(cid, with_oracle(g.ops), {})
 
 
+def production_case(rng, cid):
+    """the production Maglev table (65537 slots): a few backend sets, every slot compared"""
+    g = Gen(rng)
+    for _ in range(rng.randint(1, 4)):
+        g.add(0)
+    g.ops.append(["policy", 0, "maglev", 0, 0])     # size 0: set_load_balancing_policy, DEFAULT_TABLE_SIZE
+    g.kind[0] = "maglev"
+    g.ops.append(["table", 0])
+    for _ in range(rng.randint(1, 3)):
+        x = rng.random()
+        if x < 0.5:
+            g.add(0)
+        elif x < 0.75:
+            g.remove(0)
+        else:
+            g.ops.append(["health", 0, g.some_addr(0), 0, 1])
+        for _ in range(rng.randint(1, 3)):
+            g.ops.append(["select", 0, rng.choice(KEYS)])
+    g.ops.append(["table", 0])
+    g.ops.append(["dump"])
+    return Case(cid, with_oracle(g.ops), {})
+
+
 def gen_cases(rng, tier):
     n = {"quick": 2000, "thorough": 60000, "search": 12000}.get(tier, 2000)
     out = []
     for i in range(n):
         focus = [None, None] + KINDS
         out.append(history_case(rng, "h%d" % i, focus[i % len(focus)]))
+    for i in range({"quick": 2, "thorough": 40}.get(tier, 2)):
+        out.append(production_case(rng, "m%d" % i))
     return out
 
 
